@@ -31,7 +31,7 @@ ENGINES = {
                 files=["cfg_test.go", "poolsim_test.go"], instrument=GRPCGCP_INSTR_CLOCK,
                 kind="generated ApiConfig values / JSON texts: differential vs protojson, behavioural observation of the effective config, immutability snapshots"),
     "stream": dict(module="grpcgcp", pkg=".", pkgname="grpcgcp", pkgmarker="grpcgcp.", harness="grpcgcp",
-                   files=["stream_test.go", "poolsim_test.go"], instrument=GRPCGCP_INSTR_CLOCK,
+                   files=["stream_test.go", "poolsim_test.go"], instrument=dict(GRPCGCP_INSTR_CLOCK, **{"gcp_interceptor.go": ["-yield"]}),
                    kind="fake Streamer/ClientStream event log + gate-directed scenario programs, ordering monitor"),
     "gme": dict(module="grpcgcp", pkg=".", pkgname="grpcgcp", pkgmarker="grpcgcp.", harness="grpcgcp",
                 files=["gme_test.go"], kind="GCPMultiEndpoint over real gRPC and in-process bufconn servers: routing observed at the servers vs model, dial log, ClientConn states, goroutine profile"),
@@ -122,7 +122,7 @@ PROPS["C19"] = dict(level="exploration",
     assumptions=["reference wire format: protowire.AppendTag(2047, Fixed32Type) + little-endian crc32.Castagnoli of the exact bytes the inner codec returned for this call",
                  "equality of the decoded message is modulo the prepended unknown field 2047"],
     stages=[dict(name="codec", engine="codec", test="TestVerifCodec", batches=dict(quick=4, thorough=16),
-                 essential={"C19": ["C19.marshal", "C19.decode:codec", "C19.decode:proto", "C19.error-pass-through"]}, timeout=dict(quick=900, thorough=7200))])
+                 essential={"C19": ["C19.marshal", "C19.decode:codec", "C19.decode:proto", "C19.error-pass-through", "C19.earlier-output-intact"]}, timeout=dict(quick=900, thorough=7200))])
 
 PROPS["C17"] = dict(level="exploration",
     rule="seeded pb.ApiConfig values (zero values, nil sub-messages, up to 5 method entries with overlapping names, nil entries) and JSON texts (5 protojson renderings + mutations: unknown field, wrong type, truncation, wrong case, duplicates); non-trivial = a config driven through the whole pool observation (initial size, watermark, maxSize, per-method probes) or a parser differential or a GCPMultiEndpoint aliasing check completed; distinct = hash of the config text and variant",
@@ -140,7 +140,7 @@ PROPS["C12"] = dict(level="exploration",
     stages=[dict(name="stream", engine="stream", test="TestVerifStream", batches=dict(quick=8, thorough=16),
                  essential={"C12": ["C12.not-created-at-construction", "C12.creation-gated", "C12.recv-before-send", "C12.recv-waits-during-creation", "C12.recv-released",
                                     "C12.first-message-visible", "C12.sends-in-order", "C12.recv-delegated", "C12.recv-gets-creation-error", "C12.late-recv-reaches-stream",
-                                    "C12.recv-returns-on-context-end", "C12.bystander:before-send", "C12.bystander-delegates", "C12.unary-transparent"]},
+                                    "C12.recv-returns-on-context-end", "C12.bystander:before-send", "C12.bystander-delegates", "C12.unary-transparent", "C12.unary-nested-context", "C12.cancel-in-wait-window"]},
                  timeout=dict(quick=900, thorough=7200))])
 
 GME_ASSUME = ["real gRPC 1.56 client stack over in-process bufconn listeners; outage = dialer refuses + server stopped; reconnect backoff 5-20ms",
@@ -156,7 +156,7 @@ PROPS["C16"] = dict(level="fault_enumeration",
     rule="enumerated fault kinds {default missing, empty list for an existing ME, empty list for a new ME, dial failure at the 1st/2nd/3rd dial, valid} applied in seeded sequences of 1-4 updates on top of random legitimate changes (Go map order varies per repetition), and failed constructions {dial failure at dial 1/2, default missing, empty list}; non-trivial = every case (each ends with Close() and the leak check); distinct = hash of the op log incl. the dial order actually taken",
     assumptions=GME_ASSUME + ["client-side goroutines are recognised by frames of monitoredConn.monitor, grpc.addrConn/ClientConn/ccBalancerWrapper/ccResolverWrapper, transport.http2Client"],
     stages=[dict(name="gme", engine="gme", test="TestVerifGME", batches=dict(quick=8, thorough=16), crash_props=["C15", "C16"],
-                 essential={"C16": ["C16.rejected", "C16.routing-unchanged", "C16.update:default-missing", "C16.update:existing-empty", "C16.update:new-empty", "C16.update:dial-fail", "C16.failed-construction", "C16.close", "C16.no-goroutine-left"]},
+                 essential={"C16": ["C16.rejected", "C16.routing-unchanged", "C16.update:default-missing", "C16.update:existing-empty", "C16.update:new-empty", "C16.update:dial-fail", "C16.failed-construction", "C16.close", "C16.no-goroutine-left", "C16.accepted-update", "C16.redial-after-rollback"]},
                  timeout=dict(quick=1200, thorough=7200))])
 
 PROPS["C10"] = dict(level="exploration",
